@@ -98,6 +98,9 @@ def explore_history(args):
                             bad = [k.hex() for k in set(got) | set(want) if got.get(k) != want.get(k)][:5]
                             problems.append(dict(where, kind='followup-contents', detail='%s scan differs at keys %s' % ('pre-reopen' if j == 0 else 'post-reopen', bad)))
                             break
+            # ---- second-level crashes: kill / power loss INSIDE the recovery that follows (sampled)
+            if nested and stats['recoveries'] % nested == 1 and not problems:
+                problems += nested_crashes(k3, k2, img, shadow, work, opts, content, mode, rng, stats, where)
             if len(problems) >= 3: break
         if len(problems) >= 3: break
     shutil.rmtree(work, ignore_errors=True)
@@ -124,17 +127,53 @@ CORPUS = [
     ({'write_buffer': 65536, 'reuse_logs': 0}, ['open', 'batch p6d3030303030:@5:1 1', 'batch p6d3030303031:@6:2 0', 'reopen', 'reopen', 'batch p6d3030303032:@5:3 1']),
 ]
 
-def run_crash(rep, prop, tier, seed, modes, nhist, nops, max_points, opts_list, big=False, known_sig=None):
+def nested_crashes(k3, k2, img, shadow, work, opts, content1, mode1, rng, stats, where, max_points=14):
+    """The recovery of a crash image is itself traced; it is crashed at (sampled) syscall boundaries, in the process-crash
+    and the minimal power-loss model; recovering from the second-level image must succeed and lose nothing further:
+    contents equal those of the first recovery."""
+    d1 = os.path.join(work, 'lvl1'); w2 = os.path.join(work, 'lvl2'); os.makedirs(w2, exist_ok=True)
+    k3lib.materialise(img, shadow, d1)
+    init = {n: os.path.getsize(os.path.join(d1, n)) for n in os.listdir(d1)}
+    keep = os.path.join(work, 'lvl1keep')
+    if os.path.exists(keep): shutil.rmtree(keep)
+    shutil.copytree(d1, keep)
+    tr = os.path.join(w2, 'trace'); sh2 = os.path.join(w2, 'shadow')
+    if os.path.exists(sh2): shutil.rmtree(sh2)
+    env = dict(os.environ, K3_TRACE=tr, K3_SHADOW=sh2)
+    import subprocess
+    r = subprocess.run([k3, d1] + ['%s=%s' % kv for kv in sorted(opts.items())], input=b'open\nscan -\n', capture_output=True, timeout=120, env=env)
+    evs2 = k3lib.parse_io_trace(tr)
+    out = []
+    pts = list(range(1, len(evs2) + 1))
+    while len(pts) > max_points: pts.pop(rng.below(len(pts)))
+    for p2 in pts:
+        for mode2 in ('written', 'min'):
+            img2 = k3lib.image_at(evs2, sh2, p2, mode2, rng, initial=init)
+            if 'CURRENT' not in img2: continue
+            rc2, rcalls, _ = k3lib.recover_and_read(k2, img2, sh2, os.path.join(w2, 'img'), opts, initial_dir=keep)
+            stats['nested'] += 1
+            w = dict(where, nested_point=p2, nested_mode=mode2, nested_event=evs2[p2 - 1] if p2 - 1 < len(evs2) else None)
+            if rc2 != 0 or len(rcalls) < 2 or rcalls[0]['ret'] is None or rcalls[0]['ret'].split(' ')[0] != '0':
+                out.append(dict(w, kind='nested-open-failed', detail=(rcalls[0]['ret'] if rcalls and rcalls[0]['ret'] else 'rc=%d' % rc2))); break
+            c2, st = k3lib.scan_to_map(rcalls[1]['ret'])
+            if st != '0' or c2 != content1:
+                bad = [k.hex() for k in set(c2) | set(content1) if c2.get(k) != content1.get(k)][:5]
+                out.append(dict(w, kind='nested-contents-differ', detail='after a crash inside recovery the contents differ from the first recovery at keys %s' % bad)); break
+        if out: break
+    shutil.rmtree(d1, ignore_errors=True); shutil.rmtree(keep, ignore_errors=True); shutil.rmtree(w2, ignore_errors=True)
+    return out
+
+def run_crash(rep, prop, tier, seed, modes, nhist, nops, max_points, opts_list, big=False, known_sig=None, nested=0):
     out = vlib.scratch_dir()
     lib = vlib.build_lib(out, 'nothread')
     k3 = vlib.build_k3(out, 'nothread', lib=lib); k2 = vlib.build_k2(out, 'nothread', lib=lib)
     rng = vlib.Rng(seed ^ 0xBADC0DE)
     jobs = []
     for j, (copts, lines) in enumerate(CORPUS):        # corpus first, every crash point
-        jobs.append((k3, k2, out, 1000 + j, 0, dict(copts), corpus_history(lines), modes, 100000, False, big, tier))
+        jobs.append((k3, k2, out, 1000 + j, 0, dict(copts), corpus_history(lines), modes, 100000, nested, big, tier))
     for i in range(nhist):
         opts = dict(opts_list[i % len(opts_list)])
-        jobs.append((k3, k2, out, i, rng.next(), opts, nops, modes, max_points, False, big, tier))
+        jobs.append((k3, k2, out, i, rng.next(), opts, nops, modes, max_points, nested, big, tier))
     with ThreadPoolExecutor(vlib.NCPU) as ex:
         results = list(ex.map(explore_history, jobs))
     totals = {}
